@@ -2,6 +2,7 @@ import YaqsModel.Lemmas.Lottery
 import YaqsModel.Lemmas.ConsistencyFlow
 import YaqsModel.Lemmas.ConsistencyDegenerate
 import YaqsModel.Lemmas.ConsistencyQuadratic
+import YaqsModel.Lemmas.PauliNorm
 
 /-!
 # C01 — open-system trajectories average to the Lindblad master equation  (jump lottery part)
@@ -882,5 +883,129 @@ theorem applyProc_long_range_nonpauli (L : Nat) (p : Proc) (v : Vec) (i j : Nat)
   unfold applyProc
   rw [hs]
   simp [hp, hl]
+
+end Yaqs.Lottery
+
+/-!
+## Extension — the Pauli-pair shortcut weight is the true weight (hypothesis `hP` of C01.3 discharged at the dense level)
+
+`create_probability_distribution` (the `is_pauli` branch of the two-site loop) writes `dt·γ·state.norm(site)` for a Pauli pair
+instead of computing `‖L_p ψ̃‖²`.  `c01_lottery_expectation` carries this as the hypothesis `hP : nrm p = n`.  Below it is a
+theorem for what the driver runs (`nrm := denseNrm L ψ`, `n := vecNormSq ψ`): the Pauli matrices of the noise library and their
+Kronecker products are unitary (C01.9a), a unitary one-site / adjacent two-site operator keeps the dense squared norm in the list
+model of `Model/Lottery.lean` for every register length (C01.9b, proved in the list model itself — block regrouping of the sum
+over dense positions, `Lemmas/PauliNorm.lean` — not through the Matrix bridge), hence `denseNrm L ψ p = vecNormSq ψ` for every
+Pauli pair as `NoiseModel.__init__` fills it (C01.9c), and C01.3 holds without `hP` (C01.9d).  C01.9e shows that the hypothesis
+is needed: a non-unitary pair labelled Pauli gets a wrong weight.
+-/
+namespace Yaqs.Lottery
+open Yaqs Yaqs.Dist
+
+/-- **C01.9a `pauli_matrix_unitary`** (`NoiseLibrary.pauli_x/y/z`, `PAULI_MAP`; `np.kron(PAULI_MAP[a], PAULI_MAP[b])` of an adjacent
+    `crosstalk_ab`) The three Pauli matrices satisfy `mᴴ m = 1`, and so do all nine Kronecker products an adjacent crosstalk
+    process ships as its `matrix`. -/
+theorem pauli_matrix_unitary :
+    (∀ m ∈ pauliMats, IsUnitary 2 m) ∧ (∀ a ∈ pauliMats, ∀ b ∈ pauliMats, IsUnitary 4 (kron2 a b)) := by
+  decide +kernel
+
+/-- the matrices of this file's example processes are the library ones; `lowering` is not unitary -/
+example : pX = mX ∧ kron2 pX pX = mXX ∧ ¬ IsUnitary 2 mLow := by decide +kernel
+
+/-- **C01.9b `apply1_unitary_preserves_norm`** (`oe.contract("ab, bcd->acd", op, tensors[s])` in the dense list model) For every
+    register length `L`, every site `s < L`, every 2×2 matrix with `mᴴ m = 1` and every dense vector of length `2^L`:
+    `‖(1 ⊗ m_s ⊗ 1) v‖² = ‖v‖²`. -/
+theorem apply1_unitary_preserves_norm (L s : Nat) (m : Mat) (v : Vec) (hm : IsUnitary 2 m) (hs : s < L)
+    (hv : v.length = 2 ^ L) : vecNormSq (apply1 L s m v) = vecNormSq v :=
+  apply1_norm L s m v hm hs hv
+
+/-- **C01.9b `apply2_unitary_preserves_norm`** (merged pair `(i, i+1)`, `oe.contract("ab, bcd->acd", jump_op, merged)`) The same for a
+    4×4 matrix with `mᴴ m = 1` on two adjacent sites. -/
+theorem apply2_unitary_preserves_norm (L i : Nat) (m : Mat) (v : Vec) (hm : IsUnitary 4 m) (hi : i + 1 < L)
+    (hv : v.length = 2 ^ L) : vecNormSq (apply2 L i (i + 1) m v) = vecNormSq v :=
+  apply2_norm L i m v hm hi hv
+
+/-- an entangled, unnormalised 3-site vector with complex entries -/
+def exPsi3 : Vec := [⟨1, 2⟩, ⟨0, 1⟩, ⟨3, 0⟩, ⟨1, 1⟩, ⟨0, 0⟩, ⟨-2, 1⟩, ⟨1/2, 0⟩, ⟨0, -1⟩]
+
+/-- non-vacuity of C01.9b: hypotheses met on 3 sites, and the operators really change the vector -/
+example : IsUnitary 2 pY ∧ IsUnitary 4 (kron2 pZ pY) ∧ exPsi3.length = 2 ^ 3 ∧
+    apply1 3 1 pY exPsi3 ≠ exPsi3 ∧ apply2 3 1 2 (kron2 pZ pY) exPsi3 ≠ exPsi3 ∧
+    vecNormSq (apply1 3 1 pY exPsi3) = 93 / 4 ∧ vecNormSq (apply2 3 1 2 (kron2 pZ pY) exPsi3) = 93 / 4 ∧
+    vecNormSq exPsi3 = 93 / 4 := by decide +kernel
+
+/-- **C01.9c `pauli_pair_weight_is_norm`** (`create_probability_distribution`, `if is_pauli(process): dp_m = dt * gamma * state.norm(site)`)
+    For every register length, every dense vector `ψ` of length `2^L` and every two-site process flagged Pauli whose operator is
+    unitary (`UnitaryPair`: 4×4 unitary `matrix` on `(i, i+1)`, or unitary `factors` on two non-adjacent sites in either order):
+    `‖L_p ψ‖² = ‖ψ‖²` — the hypothesis `hP` of `c01_lottery_expectation` with `nrm := denseNrm L ψ`, `n := vecNormSq ψ`; so the
+    weight the code writes, `wTwo`, is `dt·γ·‖L_p ψ‖²`.  Second part: every Pauli pair of the noise library is such a process
+    (adjacent `crosstalk_ab` with `matrix = kron(a, b)`; long-range `crosstalk_ab` with `factors = (a, b)`). -/
+theorem pauli_pair_weight_is_norm (L : Nat) (ψ : Vec) (hψ : ψ.length = 2 ^ L) :
+    (∀ p : Proc, p.pauli = true → UnitaryPair L p →
+      denseNrm L ψ p = vecNormSq ψ ∧
+      ∀ dt : Rat, wTwo dt (denseNrm L ψ) (vecNormSq ψ) p = dt * p.gamma * denseNrm L ψ p) ∧
+    (∀ a ∈ pauliMats, ∀ b ∈ pauliMats, ∀ (i j : Nat) (γ : Rat) (fl : Bool),
+      (i + 1 < L → UnitaryPair L ⟨[i, i + 1], γ, fl, .mat (kron2 a b)⟩) ∧
+      (i < L → j < L → (i + 1 < j ∨ j + 1 < i) → UnitaryPair L ⟨[i, j], γ, fl, .factors a b⟩)) := by
+  refine ⟨fun p hp hu => ?_, fun a ha b hb i j γ fl => ⟨fun hi => ?_, fun hi hj hij => ?_⟩⟩
+  · have h := unitaryPair_norm L ψ p hψ hp hu
+    refine ⟨h, fun dt => ?_⟩
+    unfold wTwo
+    rw [if_pos hp, h]
+  · exact ⟨rfl, hi, pauli_matrix_unitary.2 a ha b hb⟩
+  · refine ⟨hi, hj, ?_, pauli_matrix_unitary.1 a ha, pauli_matrix_unitary.1 b hb⟩
+    unfold isLongrange
+    simp only [Bool.or_eq_true, decide_eq_true_eq]
+    exact hij
+
+/-- non-vacuity of C01.9c: an adjacent `crosstalk_zy`, a long-range `crosstalk_xy` in both site orders -/
+example : UnitaryPair 3 ⟨[1, 2], 1/5, true, .mat (kron2 pZ pY)⟩ ∧ UnitaryPair 3 ⟨[0, 2], 1/5, true, .factors pX pY⟩ ∧
+    UnitaryPair 3 ⟨[2, 0], 1/5, true, .factors pX pY⟩ ∧
+    denseNrm 3 exPsi3 ⟨[2, 0], 1/5, true, .factors pX pY⟩ = vecNormSq exPsi3 := by decide +kernel
+
+/-- **C01.9d `c01_lottery_expectation_dense`** C01.3 for well-sited lists with `hP` discharged: on the dense vector `ψ = ψ̃` the driver
+    is given (`‖ψ‖² ≤ 1`), with the weights `denseNrm L ψ` it computes, and every Pauli pair of the list a `UnitaryPair`, the
+    branch average is `a₀ + ((1-‖ψ‖²)/W)·Σ_k dt·γ_k·a_k`, `W = Σ_k dt·γ_k·‖L_k ψ‖²`.  Also gone: `0 ≤ n` (`vecNormSq_nonneg`).
+    What is left as hypothesis: the branch values `hv0`/`hv` (→ `Props/C14.lean` `jump_branch_value`, `lottery_jump_dense`) and
+    `ha0`/`ha` (`a = ⟨φ|O|φ⟩` vanishes with `φ`); non-negativity of the weights is `dense_lottery_link`. -/
+theorem c01_lottery_expectation_dense (L : Nat) (procs : List Proc) (dt : Rat) (ψ : Vec)
+    (a0 : Rat) (a : Proc → Rat) (v0 : Rat) (v : Nat → Rat)
+    (hψ : ψ.length = 2 ^ L) (hn1 : vecNormSq ψ ≤ 1)
+    (hsite : ∀ p ∈ procs, visited L p = true)
+    (hU : ∀ p ∈ procs, p.pauli = true → p.sites.length = 2 → UnitaryPair L p)
+    (hv0 : vecNormSq ψ ≠ 0 → v0 = a0 / vecNormSq ψ) (ha0 : vecNormSq ψ = 0 → a0 = 0)
+    (hv : ∀ k (h : k < procs.length), denseNrm L ψ procs[k] ≠ 0 → v k = a procs[k] / denseNrm L ψ procs[k])
+    (ha : ∀ p ∈ procs, denseNrm L ψ p = 0 → a p = 0)
+    (d : Dist Branch) (hd : stepLottery L procs dt (denseNrm L ψ) (vecNormSq ψ) = some d) :
+    expect d (branchVal v0 v) =
+      a0 + (1 - vecNormSq ψ) / (procs.map (fun p => dt * p.gamma * denseNrm L ψ p)).sum *
+        (procs.map (fun p => dt * p.gamma * a p)).sum :=
+  c01_lottery_expectation_wellsited L procs dt (denseNrm L ψ) (vecNormSq ψ) a0 a v0 v (vecNormSq_nonneg ψ) hn1 hsite
+    (fun p hp hpa h2 => ((pauli_pair_weight_is_norm L ψ hψ).1 p hpa (hU p hp hpa h2)).1) hv0 ha0 hv ha d hd
+
+/-- `exPsi3 / 5`: squared norm `93/100 ≤ 1` -/
+def exPsi3s : Vec := exPsi3.map (CR.smul (1/5))
+
+/-- a mixed list on 3 sites, not in sweep order: long-range `crosstalk_xy`, `lowering`, adjacent `crosstalk_zy`, `pauli_x` -/
+def exMixed : List Proc :=
+  [⟨[0, 2], 7/10, true, .factors pX pY⟩, exLow 1 (1/10), ⟨[1, 2], 1/5, true, .mat (kron2 pZ pY)⟩, exX 2 (3/10)]
+
+/-- non-vacuity of C01.9d: the structural hypotheses hold and the step exists -/
+example : exPsi3s.length = 2 ^ 3 ∧ vecNormSq exPsi3s ≤ 1 ∧ (∀ p ∈ exMixed, visited 3 p = true) ∧
+    (∀ p ∈ exMixed, p.pauli = true → p.sites.length = 2 → UnitaryPair 3 p) ∧
+    (stepLottery 3 exMixed (1/10) (denseNrm 3 exPsi3s) (vecNormSq exPsi3s)).isSome = true := by decide +kernel
+
+/-- `lowering_two` on `(0,1)` wrongly flagged as a Pauli process -/
+def exLowLowMislabelled : Proc := ⟨[0, 1], 1/2, true, .mat mLowLow⟩
+
+/-- **C01.9e `pauli_shortcut_needs_unitarity`** (the hypothesis of C01.9c is needed) For a non-unitary pair taken for a Pauli process —
+    `lowering ⊗ lowering` with `pauli = true` — on `|10⟩` the shortcut weight `dt·γ·‖ψ‖² = 1/2` differs from the true weight
+    `dt·γ·‖Lψ‖² = 0`: the slot the sweep writes is wrong, and a process that annihilates the state is drawn with certainty. -/
+theorem pauli_shortcut_needs_unitarity :
+    ¬ IsUnitary 4 mLowLow ∧ ¬ UnitaryPair 2 exLowLowMislabelled ∧ visited 2 exLowLowMislabelled = true ∧
+    wTwo 1 (denseNrm 2 ex10) (vecNormSq ex10) exLowLowMislabelled = 1/2 ∧
+    1 * exLowLowMislabelled.gamma * denseNrm 2 ex10 exLowLowMislabelled = 0 ∧
+    denseNrm 2 ex10 exLowLowMislabelled ≠ vecNormSq ex10 ∧
+    probVector 2 [exLowLowMislabelled] 1 (denseNrm 2 ex10) (vecNormSq ex10) = some [1] := by
+  decide +kernel
 
 end Yaqs.Lottery
